@@ -195,6 +195,11 @@ def rand_desc(rng, max_species=3, max_cells=8, reactions=False, space_kind=None,
     if reactions:
         labels = [s["label"] for s in species]
         desc["reactions"] = [rand_reaction(rng, labels, envs) for _ in range(rng.randint(0, max_reactions))]
+    # objects with a past: built in one units system, given another before use (what was stated keeps its meaning)
+    if rng.random() < 0.2:
+        reassign_leaf_units(rng, desc)
+    if rng.random() < 0.15:
+        reassign_space_units(rng, desc)
     return desc
 
 
@@ -228,8 +233,40 @@ def ncells(desc):
 BC = {False: "reflecting", True: "periodical"}
 
 
+def _explicit_in(q, old):
+    return {"sys": list(old), "v": q["bare"]} if "bare" in q else q
+
+
+def _explicit_env(ev, old):
+    if "scalar" in ev:
+        return {"scalar": _explicit_in(ev["scalar"], old)}
+    return {"dict": [[k, _explicit_in(q, old)] for k, q in ev["dict"]]}
+
+
+def reassign_leaf_units(rng, desc, p=0.5):
+    """species and reactions built in one units system and given another afterwards: what was stated at construction keeps its
+    physical meaning (the description states it explicitly in the old units), later bare numbers are read in the new one"""
+    for s in desc["species"]:
+        if rng.random() < p and "built_in" not in s:
+            old = list(s["units"])
+            s["D"], s["dens"] = _explicit_env(s["D"], old), _explicit_env(s["dens"], old)
+            s["built_in"], s["units"] = old, list(rand_sys(rng))
+    for r in desc["reactions"]:
+        if rng.random() < p and "built_in" not in r:
+            old = list(r["units"])
+            r["kf"], r["kr"] = _explicit_env(r["kf"], old), _explicit_env(r["kr"], old)
+            r["built_in"], r["units"] = old, list(rand_sys(rng))
+    return desc
+
+
 def build_species(strengths, s):
     U = strengths.units
+    if s.get("built_in"):
+        first = dict(s, units=s["built_in"])
+        del first["built_in"]
+        sp = build_species(strengths, first)
+        sp.units_system = py_sys(U, s["units"])
+        return sp
     chs = s["chstt"]
     chs = chs["scalar"] if "scalar" in chs else {k: v for k, v in chs["dict"]}
     return strengths.Species(label=s["label"], D=py_envval(U, s["D"], DIMS["D"]), density=py_envval(U, s["dens"], DIMS["dens"]),
@@ -247,6 +284,8 @@ def reassign_space_units(rng, desc):
         return {"sys": old, "v": q["bare"]} if "bare" in q else q
     if sp["type"] == "grid":
         sp["vol"] = explicit(sp["vol"])
+        if "edge" in sp:
+            sp["edge"] = explicit(sp["edge"])       # the edge length kept beside the volume for the models is a statement in the old units too
     sp["built_in"] = old
     sp["units"] = list(rand_sys(rng))
     return desc
@@ -276,6 +315,12 @@ def build_space(strengths, sp):
 
 def build_reaction(strengths, r):
     U = strengths.units
+    if r.get("built_in"):
+        first = dict(r, units=r["built_in"])
+        del first["built_in"]
+        re_ = build_reaction(strengths, first)
+        re_.units_system = py_sys(U, r["units"])
+        return re_
     osub = sum(r["sub"].values())
     oprod = sum(r["prod"].values())
     return strengths.Reaction(stoichiometry=[dict(r["sub"]), dict(r["prod"])],
